@@ -205,3 +205,43 @@ MUTANTS += [
     dict(prop="C07", name="matched row reported again as unmatched", file=EM, old="        rows.remove(row)\n", new=""),
     dict(prop="C07", name="threshold 0.5 for pairing", file=EM, old="        if cost_matrix[row, column] <= 0:", new="        if cost_matrix[row, column] <= 0.5:"),
 ]
+SED = "evaluation/tasks/sound_event_detection.py"
+TC = "evaluation/tasks/common.py"
+MET = "evaluation/metrics.py"
+MUTANTS += [
+    # ---- C08
+    dict(prop="C08", name="valid clips: membership test dropped", file=TC, old="        if predictions.clip.uuid in annotated_clips:", new="        if True:"),
+    dict(prop="C08", name="valid clips: always the first annotation", file=TC, old="            annotations = annotated_clips[predictions.clip.uuid]", new="            annotations = clip_annotations[0]"),
+    dict(prop="C08", name="constant affinity 1 (original defect)", file=SED, old="        affinity=affinity,\n        score=score,", new="        affinity=1,\n        score=score,"),
+    dict(prop="C08", name="unpaired prediction scores 1", file=SED, old="                    source=prediction,\n                    target=None,\n                    affinity=affinity,\n                    score=0,", new="                    source=prediction,\n                    target=None,\n                    affinity=affinity,\n                    score=1,"),
+    dict(prop="C08", name="geometry-less annotations dropped", file=SED, old="    pairs.extend(\n        (None, annotation, 0.0)\n        for annotation in clip_annotations.sound_events\n        if not annotation.sound_event.geometry\n    )\n", new=""),
+    dict(prop="C08", name="index into the unfiltered list (original defect)", file=SED, old="            predictions[prediction_index]\n            if prediction_index is not None", new="            clip_predictions.sound_events[prediction_index]\n            if prediction_index is not None"),
+    dict(prop="C08", name="classification_score: mass instead of remainder", file=MET, old="def classification_score(\n    y_true: Optional[int],\n    y_score: np.ndarray,\n) -> float:\n    if y_true is None:\n        return 1 - y_score.sum()", new="def classification_score(\n    y_true: Optional[int],\n    y_score: np.ndarray,\n) -> float:\n    if y_true is None:\n        return y_score.sum()"),
+    dict(prop="C08", name="_mean of nothing is 1", file=SED, old="    if not valid_scores:\n        return 0.0", new="    if not valid_scores:\n        return 1.0"),
+    dict(prop="C08", name="pair score taken from the prediction's best class", file=SED, old="    score = metrics.classification_score(true_class, predicted_class_scores)", new="    score = float(predicted_class_scores.max())"),
+    dict(prop="C08", name="refactor: local renamed in evaluate_sound_event", file=SED, old="    score = metrics.classification_score(true_class, predicted_class_scores)\n    match = data.Match(", new="    pair_score = metrics.classification_score(true_class, predicted_class_scores)\n    score = pair_score\n    match = data.Match(", expect="clean"),
+    # ---- C09
+    dict(prop="C09", name="duplicate terms (original defect)", file="evaluation/tasks/sound_event_classification.py", old="    (terms.accuracy, metrics.accuracy),", new="    (terms.balanced_accuracy, metrics.accuracy),"),
+    dict(prop="C09", name="accuracy term computed by balanced_accuracy", file="evaluation/tasks/clip_classification.py", old="    (terms.accuracy, metrics.accuracy),", new="    (terms.accuracy, metrics.balanced_accuracy),"),
+    dict(prop="C09", name="true_class_probability reads class 0", file=MET, old="def true_class_probability(\n    y_true: Optional[int],\n    y_score: np.ndarray,\n) -> float:\n    if y_true is None:\n        return 1 - y_score.sum()\n\n    return y_score[y_true]", new="def true_class_probability(\n    y_true: Optional[int],\n    y_score: np.ndarray,\n) -> float:\n    if y_true is None:\n        return 1 - y_score.sum()\n\n    return y_score[0]"),
+    dict(prop="C09", name="multilabel mAP flattened (original defect)", file=MET, old="        no_class = no_class.any(axis=1)\n", new="        pass\n"),
+    dict(prop="C09", name="overall score of nothing is 1", file="evaluation/tasks/clip_classification.py", old="    return float(np.mean(non_none_scores)) if non_none_scores else 0.0", new="    return float(np.mean(non_none_scores)) if non_none_scores else 1.0"),
+    dict(prop="C09", name="unlabelled items counted as class 0 in accuracy", file=MET, old="""def accuracy(
+    y_true: Sequence[Optional[int]],
+    y_score: np.ndarray,
+) -> float:
+    num_classes = y_score.shape[1]
+    y_true_array = np.array(
+        [y if y is not None else num_classes for y in y_true]
+    )""", new="""def accuracy(
+    y_true: Sequence[Optional[int]],
+    y_score: np.ndarray,
+) -> float:
+    num_classes = y_score.shape[1]
+    y_true_array = np.array(
+        [y if y is not None else 0 for y in y_true]
+    )"""),
+    dict(prop="C09", name="two metric terms share a label", file="terms/metrics.py", old='    label="Top 3 Accuracy",', new='    label="Accuracy",'),
+    dict(prop="C09", name="match metrics keyed by term name on save only", file="io/aoef/match.py", old="                    data.key_from_term(metrics.term): metrics.value", new="                    metrics.term.name: metrics.value"),
+    dict(prop="C09", name="empty clip score nan (original defect)", file="evaluation/tasks/sound_event_classification.py", old="    score = float(np.mean(scores)) if scores else None", new="    score = float(np.mean(scores))"),
+]
